@@ -49,7 +49,7 @@ struct World {
 
 /// the plain-vector specification of the mutators: (new contents, return text, effective?);
 /// None = panics.  Written independently of the library.
-fn spec_mut(name: &str, arg: &str, v: &[u32], txn_clear: bool) -> Option<(Vec<u32>, String, bool)> {
+pub(crate) fn spec_mut(name: &str, arg: &str, v: &[u32], txn_clear: bool) -> Option<(Vec<u32>, String, bool)> {
     let len = v.len();
     let mut n = v.to_vec();
     match name {
@@ -171,14 +171,14 @@ fn spec_each(v: &[u32], decs: &[Dec]) -> (Vec<(usize, u32)>, Vec<u32>, Vec<Vec<u
     (visited, sh, pubs)
 }
 
-fn split_op(s: &str) -> (&str, &str) {
+pub(crate) fn split_op(s: &str) -> (&str, &str) {
     match s.find(|c| c == '(' || c == '[') {
         Some(i) => (&s[..i], &s[i..]),
         None => (s, ""),
     }
 }
 
-fn args(s: &str) -> Vec<usize> {
+pub(crate) fn args(s: &str) -> Vec<usize> {
     let inner = &s[1..s.len() - 1];
     if inner.is_empty() {
         return vec![];
@@ -384,7 +384,7 @@ impl World {
     }
 }
 
-fn show_ret_opt(o: Option<u32>) -> String {
+pub(crate) fn show_ret_opt(o: Option<u32>) -> String {
     match o {
         None => "None".into(),
         Some(x) => format!("Some({x})"),
@@ -450,6 +450,7 @@ macro_rules! mutate {
         }
     }};
 }
+pub(crate) use mutate;
 
 const MUTATORS: [&str; 10] =
     ["append", "clear", "push_front", "push_back", "pop_front", "pop_back", "insert", "set", "remove", "truncate"];
